@@ -125,6 +125,7 @@ type Exec struct {
 	ifaceAx     []*Term
 	infoCache   []*Term
 	lowPrio     map[*Term]bool // hypotheses instantiated last (heap-closure axioms)
+	rangeIters  []rangeIter
 }
 
 type Frame struct {
@@ -138,6 +139,13 @@ type Frame struct {
 	loops   map[*ssa.BasicBlock]*loopInfo
 	prefix  string
 	parent  *Frame
+	rangeOf map[ssa.Value]rangeIter
+}
+
+type rangeIter struct {
+	m  *Term
+	it *Term
+	mt *types.Map
 }
 
 type loopInfo struct {
@@ -346,7 +354,7 @@ type edgeIn struct {
 }
 
 func (ex *Exec) newFrame(fn *ssa.Function, depth int, top bool) *Frame {
-	fr := &Frame{ex: ex, fn: fn, vals: map[ssa.Value]*Val{}, depth: depth, top: top, names: map[string]ssa.Value{}, free: map[*ssa.FreeVar]*Val{}, parent: ex.curFrame}
+	fr := &Frame{ex: ex, fn: fn, vals: map[ssa.Value]*Val{}, depth: depth, top: top, names: map[string]ssa.Value{}, free: map[*ssa.FreeVar]*Val{}, parent: ex.curFrame, rangeOf: map[ssa.Value]rangeIter{}}
 	return fr
 }
 
@@ -889,6 +897,38 @@ func (ex *Exec) instr(fr *Frame, in ssa.Instruction, st *State, reach *Term) {
 		ex.heapSet(st, hc, Store(hh, mv, Store(Select(hh, mv), k, True)))
 		vh := ex.heapGet(st, vc, vs)
 		ex.heapSet(st, vc, Store(vh, mv, Store(Select(vh, mv), k, val)))
+	case *ssa.Range:
+		mt, ok := x.X.Type().Underlying().(*types.Map)
+		if !ok {
+			ex.fail("range over %s", x.X.Type())
+		}
+		mv := ex.value(fr, x.X).T
+		it := ex.allocRef(st, 1)
+		comp, cs := V.rangeComp(mt)
+		ex.heapSet(st, comp, Store(ex.heapGet(st, comp, cs), it, ConstArr(cs.B, False)))
+		ex.rangeIters = append(ex.rangeIters, rangeIter{m: mv, it: it, mt: mt})
+		fr.vals[x] = &Val{T: it}
+		fr.rangeOf[x] = rangeIter{m: mv, it: it, mt: mt}
+	case *ssa.Next:
+		ri, ok := fr.rangeOf[x.Iter]
+		if !ok {
+			ex.fail("next on unknown iterator")
+		}
+		mt := ri.mt
+		comp, cs := V.rangeComp(mt)
+		hc, hs, vc, vs := V.mapComps(mt)
+		vis := Select(ex.heapGet(st, comp, cs), ri.it)
+		has := Select(ex.heapGet(st, hc, hs), ri.m)
+		vals := Select(ex.heapGet(st, vc, vs), ri.m)
+		ex.counters["next"]++
+		n := ex.counters["next"]
+		okT := Fresh(fmt.Sprintf("rng.ok%d", n), SBool)
+		k := Fresh(fmt.Sprintf("rng.k%d", n), cs.B.A)
+		q := Const(fmt.Sprintf("rq?%d", n), cs.B.A)
+		ex.assume(Implies(reach, Implies(okT, And(Select(has, k), Not(Select(vis, k))))))
+		ex.assume(Implies(reach, Implies(Not(okT), Forall([]*Term{q}, Implies(Select(has, q), Select(vis, q))))))
+		ex.heapSet(st, comp, Store(ex.heapGet(st, comp, cs), ri.it, Ite(okT, Store(vis, k, True), vis)))
+		fr.vals[x] = &Val{Tup: []*Val{{T: okT}, {T: k}, {T: Select(vals, k)}}}
 	case *ssa.RunDefers:
 		// no Defer instructions in supported functions
 	default:
